@@ -180,6 +180,11 @@ theorem Foot_roundTailP {d : Cell} (hd : W d) (c : Ctx) (res : Cond) (yd : Nat Ã
   unfold roundTailP; foot
 macro_rules | `(tactic| foot_call) => `(tactic| (apply Foot_roundTailP; foot_side))
 
+theorem Foot_roundFinP {d : Cell} {x : Src} (hd : W d) (hx : SrcOK R W x) (c : Ctx) (b : Bool) :
+    Foot R W (roundFinP c d x b) := by
+  unfold roundFinP; foot
+macro_rules | `(tactic| foot_call) => `(tactic| (apply Foot_roundFinP <;> foot_side))
+
 theorem Foot_roundP {d : Cell} {x : Src} (hd : W d) (hx : SrcOK R W x) (c : Ctx) (b : Bool) :
     Foot R W (roundP c d x b) := by
   unfold roundP; foot
